@@ -19,11 +19,12 @@ func init() { props["C10"] = runC10 }
 
 // c10Case is one recorded / replayable case.
 type c10Case struct {
-	Kind string   `json:"kind"` // acct | tx | ...
-	Acct *c10Acct `json:"acct,omitempty"`
-	Tx   *c10Tx   `json:"tx,omitempty"`
-	Order *c10Order `json:"order,omitempty"`
-	Snap  *c10Snap  `json:"snap,omitempty"`
+	Kind  string        `json:"kind"` // acct | tx | ...
+	Acct  *c10Acct      `json:"acct,omitempty"`
+	Tx    *c10Tx        `json:"tx,omitempty"`
+	Order *c10Order     `json:"order,omitempty"`
+	Snap  *c10Snap      `json:"snap,omitempty"`
+	Batch *c10BatchCase `json:"batch,omitempty"`
 	// raw bytes for decode-only (malformed) cases
 	Raw string `json:"raw,omitempty"`
 }
@@ -59,7 +60,7 @@ func goSerAcct(a *account.Account) (b []byte, err error, panicked bool) {
 		}
 	}()
 	var buf bytes.Buffer
-	err = clientdb.VerifSerializeAccount(&buf, a)
+	err = clientdb.VerifC10SerializeAccount(&buf, a)
 	return buf.Bytes(), err, false
 }
 
@@ -79,7 +80,7 @@ func goDeAcct(raw []byte) (exp string, y *account.Account) {
 			}
 		}()
 		rd := bytes.NewReader(raw)
-		y, err = clientdb.VerifDeserializeAccount(rd)
+		y, err = clientdb.VerifC10DeserializeAccount(rd)
 		if err != nil {
 			return
 		}
@@ -229,7 +230,7 @@ func (c *c10Run) acctDB(n int) {
 					key, c10Case{Kind: "acct", Acct: shadow[k]})
 			}
 			if k == written {
-				raw := db.VerifRawAccount(unhexOr(k))
+				raw := db.VerifC10RawAccount(unhexOr(k))
 				exp := "err"
 				if err == nil {
 					// `re` as the model computes it: re-encoding of the decoded
@@ -403,6 +404,10 @@ func runC10(r *Run) {
 			if cs.Snap != nil {
 				c.snapDirect(cs.Snap, "fixed")
 			}
+		case "batch":
+			if cs.Batch != nil {
+				c.batchDB(cs.Batch)
+			}
 		case "snapdb":
 			if cs.Snap != nil {
 				c.snapDBFixed(cs.Snap)
@@ -434,10 +439,13 @@ func runC10(r *Run) {
 			n := 4 + r.Rng.Intn(8)
 			c.acctDB(n)
 			i += n
-		case x < 64:
+		case x < 60:
 			n := 4 + r.Rng.Intn(8)
 			c.orderDB(n)
 			i += n
+		case x < 66:
+			c.batchDB(c.genBatchCase())
+			i += 10
 		case x < 71:
 			c.orderMalformed()
 			i++
